@@ -114,4 +114,142 @@ theorem maxL_eq_of_toFinset {l l' : List Nat} (h : l.toFinset = l'.toFinset) (hl
   · exact le_maxL l _ ((mem _).mpr (maxL_mem l' hl'))
 
 
+
+/-! ### Added for robustness against behaviour-preserving refactorings (generic; nothing here mentions a generated module)
+
+  * arithmetic below a unary minus (`Py.imod`, `Py.ifloordiv`, `Py.toNat`): closed forms on the naturals, so that `(-x) % r` and
+    `-(-x // r)` reduce to the same normal forms as their subtraction-free spellings;
+  * every spelling of "round up to a multiple" the translator can emit (operands are sorted, so both orders occur) → `padTo`;
+  * every spelling of the reduced repetition count → `min`;
+  * accumulation loops as finite sets: `foldl` of `Py.setAdd` / `Py.setUnion` is the image / union (set comprehensions, `set(map …)`
+    and hand-written loops are all translated to such loops). -/
+
+theorem imod_natCast {b : Nat} (hb : 0 < b) (x : Nat) : Py.imod (x : Int) (b : Int) = .ok ((x % b : Nat) : Int) := by
+  unfold Py.imod; rw [if_neg (by omega)]
+  simp only [pure_eq_ok, Except.ok.injEq]
+  rw [Int.fmod_eq_emod_of_nonneg _ (by omega)]; omega
+
+theorem ifloordiv_natCast {b : Nat} (hb : 0 < b) (x : Nat) : Py.ifloordiv (x : Int) (b : Int) = .ok ((x / b : Nat) : Int) := by
+  unfold Py.ifloordiv; rw [if_neg (by omega)]
+  simp only [pure_eq_ok, Except.ok.injEq]
+  rw [Int.fdiv_eq_ediv_of_nonneg _ (by omega)]; omega
+
+/-- `(-x) % b` for naturals `x`, `b > 0` (Python: in `[0, b)`) -/
+theorem imod_neg_natCast {b : Nat} (hb : 0 < b) (x : Nat) : Py.imod (-(x : Int)) (b : Int) = .ok (((b - x % b) % b : Nat) : Int) := by
+  unfold Py.imod; rw [if_neg (by omega)]
+  simp only [pure_eq_ok, Except.ok.injEq]
+  rw [Int.fmod_eq_emod_of_nonneg _ (by omega)]
+  have hle : x % b ≤ b := Nat.le_of_lt (Nat.mod_lt _ hb)
+  rw [Int.natCast_mod, Int.natCast_sub hle, Int.natCast_mod]
+  have e1 : (-(x : Int)) % (b : Int) = ((0 : Int) - (x : Int) % b) % b := by
+    rw [← Int.zero_sub, Int.sub_emod, Int.zero_emod]
+  have e2 : ((b : Int) - (x : Int) % b) % b = ((0 : Int) - (x : Int) % b) % b := by
+    rw [Int.sub_emod, Int.emod_self, Int.emod_emod]
+  rw [e1, e2]
+
+/-- `-x // b` for naturals `x`, `b > 0`: minus the ceiling of `x / b` -/
+theorem ifloordiv_neg_natCast {b : Nat} (hb : 0 < b) (x : Nat) :
+    Py.ifloordiv (-(x : Int)) (b : Int) = .ok (-(((x + b - 1) / b : Nat) : Int)) := by
+  unfold Py.ifloordiv; rw [if_neg (by omega)]
+  simp only [pure_eq_ok, Except.ok.injEq]
+  rw [Int.fdiv_eq_ediv_of_nonneg _ (by omega)]
+  generalize hc : (x + b - 1) / b = c
+  have h1 : c * b ≤ x + b - 1 := by rw [← hc]; exact Nat.div_mul_le_self _ _
+  have h2 : x + b - 1 < c * b + b := by rw [← hc]; exact Nat.lt_div_mul_add hb
+  have hb' : (0 : Int) < (b : Int) := by omega
+  have key := (Int.ediv_emod_unique hb' (a := -(x : Int)) (q := -(c : Int)) (r := (c : Int) * b - x)).mpr
+  have hcb : ((c * b : Nat) : Int) = (c : Int) * (b : Int) := Int.natCast_mul c b
+  refine (key ⟨?_, ?_, ?_⟩).1
+  · rw [Int.mul_neg, Int.mul_comm (b : Int) (c : Int)]; omega
+  · omega
+  · omega
+
+@[simp] theorem toNat_natCast (n : Nat) : Py.toNat (n : Int) = .ok n := by
+  unfold Py.toNat; rw [if_pos (by omega)]; simp
+
+/-- casts are pulled outwards (towards `Py.toNat`), double negations vanish -/
+theorem natCast_add_symm (a b : Nat) : (a : Int) + (b : Int) = ((a + b : Nat) : Int) := (Int.natCast_add a b).symm
+theorem natCast_mul_symm (a b : Nat) : (a : Int) * (b : Int) = ((a * b : Nat) : Int) := (Int.natCast_mul a b).symm
+theorem int_neg_neg (a : Int) : - -a = a := Int.neg_neg a
+theorem int_neg_mul_neg (a b : Int) : -a * -b = a * b := Int.neg_mul_neg a b
+
+theorem eq_padTo_of_dvd {a x y : Nat} (ha : 1 ≤ a) (hd : a ∣ y) (hx : x ≤ y) (hlt : y < x + a) : y = padTo a x := by
+  apply Nat.le_antisymm
+  · obtain ⟨m, rfl⟩ := hd
+    obtain ⟨n, hn⟩ := padTo_dvd a x
+    have hxp := le_padTo a x ha
+    rw [hn] at hxp ⊢
+    have h1 : a * m < a * (n + 1) := by rw [Nat.mul_add, Nat.mul_one]; omega
+    have h2 := Nat.lt_of_mul_lt_mul_left h1
+    exact Nat.mul_le_mul_left a (by omega)
+  · exact padTo_least a x y ha hd hx
+
+theorem padTo_form1 (a x : Nat) : (x + a - 1) / a * a = padTo a x := rfl
+theorem padTo_form2 (a x : Nat) : (a + x - 1) / a * a = padTo a x := by rw [Nat.add_comm a x]; rfl
+theorem padTo_form3 (a x : Nat) : a * ((x + a - 1) / a) = padTo a x := by rw [Nat.mul_comm]; rfl
+theorem padTo_form4 (a x : Nat) : a * ((a + x - 1) / a) = padTo a x := by rw [Nat.mul_comm, Nat.add_comm a x]; rfl
+/-- `x + (-x) % a` -/
+theorem padTo_form5 {a : Nat} (ha : 1 ≤ a) (x : Nat) : x + (a - x % a) % a = padTo a x := by
+  apply eq_padTo_of_dvd ha
+  · by_cases h : x % a = 0
+    · rw [h, Nat.sub_zero, Nat.mod_self, Nat.add_zero]; exact Nat.dvd_of_mod_eq_zero h
+    · have hlt := Nat.mod_lt x (show 0 < a by omega)
+      rw [Nat.mod_eq_of_lt (by omega)]
+      have := Nat.div_add_mod x a
+      have e : x + (a - x % a) = a * (x / a + 1) := by rw [Nat.mul_add, Nat.mul_one]; omega
+      rw [e]; exact Nat.dvd_mul_right _ _
+  · omega
+  · have := Nat.mod_lt (a - x % a) (show 0 < a by omega); omega
+theorem padTo_form6 {a : Nat} (ha : 1 ≤ a) (x : Nat) : (a - x % a) % a + x = padTo a x := by
+  rw [Nat.add_comm]; exact padTo_form5 ha x
+
+/-- spellings of `min` -/
+theorem ite_le_eq_min (a b : Nat) : (if a ≤ b then a else b) = min a b := (Nat.min_def).symm
+theorem ite_lt_eq_min (a b : Nat) : (if a < b then a else b) = min a b := by
+  rw [Nat.min_def]; split <;> split <;> omega
+theorem ite_le_eq_min' (a b : Nat) : (if a ≤ b then a else b) = min b a := by rw [Nat.min_comm]; exact ite_le_eq_min a b
+theorem ite_lt_eq_min' (a b : Nat) : (if a < b then a else b) = min b a := by rw [Nat.min_comm]; exact ite_lt_eq_min a b
+
+theorem mapM_ok_fun {ε α β : Type} (l : List α) (g : α → β) :
+    l.mapM (fun x => (Except.ok (g x) : Except ε β)) = .ok (l.map g) := mapM_ok l _ g (fun _ _ => rfl)
+
+theorem forEach_ok_fun {α σ : Type} (l : List α) (init : σ) (f : σ → α → σ) :
+    Py.forEach l init (fun s x => (Except.ok (f s x) : Py.M σ)) = .ok (l.foldl f init) :=
+  forEach_ok l init _ f (fun _ _ _ => rfl)
+
+theorem mem_foldl_foldl_setAdd {α β : Type} (ks : List α) (L : α → List β) (g : α → β → Nat) (init : List Nat) (y : Nat) :
+    y ∈ ks.foldl (fun out k => (L k).foldl (fun out el => Py.setAdd out (g k el)) out) init
+      ↔ y ∈ init ∨ ∃ k ∈ ks, ∃ el ∈ L k, y = g k el := by
+  induction ks generalizing init with
+  | nil => simp
+  | cons a ks ih =>
+    rw [List.foldl_cons, ih, mem_foldl_setAdd]
+    simp only [List.mem_cons]; grind
+
+theorem mem_foldl_setUnion {α : Type} (l : List α) (g : α → List Nat) (init : List Nat) (y : Nat) :
+    y ∈ l.foldl (fun s x => Py.setUnion s (g x)) init ↔ y ∈ init ∨ ∃ x ∈ l, y ∈ g x := by
+  induction l generalizing init with
+  | nil => simp
+  | cons a l ih => rw [List.foldl_cons, ih]; simp only [mem_setUnion, List.mem_cons]; grind
+
+/-- an accumulation loop that starts from the empty set is, as a finite set, the image -/
+theorem toFinset_foldl_setAdd {α : Type} (l : List α) (g : α → Nat) :
+    (l.foldl (fun s x => Py.setAdd s (g x)) []).toFinset = (l.map g).toFinset := by
+  ext y; simp only [List.mem_toFinset, mem_foldl_setAdd, List.not_mem_nil, false_or, List.mem_map]
+  constructor
+  · rintro ⟨x, hx, rfl⟩; exact ⟨x, hx, rfl⟩
+  · rintro ⟨x, hx, rfl⟩; exact ⟨x, hx, rfl⟩
+
+theorem toFinset_foldl_foldl_setAdd {α β : Type} (ks : List α) (L : α → List β) (g : α → β → Nat) :
+    (ks.foldl (fun out k => (L k).foldl (fun out el => Py.setAdd out (g k el)) out) []).toFinset
+      = (ks.flatMap fun k => (L k).map (g k)).toFinset := by
+  ext y; simp only [List.mem_toFinset, mem_foldl_foldl_setAdd, List.not_mem_nil, false_or, List.mem_flatMap, List.mem_map]
+  constructor
+  · rintro ⟨k, hk, el, hel, rfl⟩; exact ⟨k, hk, el, hel, rfl⟩
+  · rintro ⟨k, hk, el, hel, rfl⟩; exact ⟨k, hk, el, hel, rfl⟩
+
+theorem toFinset_foldl_setUnion {α : Type} (l : List α) (g : α → List Nat) :
+    (l.foldl (fun s x => Py.setUnion s (g x)) []).toFinset = (l.flatMap g).toFinset := by
+  ext y; simp only [List.mem_toFinset, mem_foldl_setUnion, List.not_mem_nil, false_or, List.mem_flatMap]
+
 end Bridge
